@@ -190,6 +190,9 @@ def materialise(scn, base):
                 f.write(file_bytes(rng, "tiny"))
             extra.append((rel, "tiny"))
         os.symlink("real0", os.path.join(root, "lnk0"))
+        if scn.get("selfloop"):
+            # a link to its own directory: with -L both walkers must report the loop once and list nothing twice
+            os.symlink(".", os.path.join(root, "real0", "self"))
         with open(os.path.join(root, ".ignore"), "a") as f:
             f.write("lnk0/\n")
         files = files + extra
@@ -255,6 +258,7 @@ def make_scenarios(tier, seed):
             "cpus": [rng.choice([None, None, 1, 2, 3]) for _ in threads],
             "sort_threads": [rng.randint(2, 16) for _ in range(nsort)],
             "roots": i % 5 == 4,
+            "selfloop": i % 3 == 2 and i % 5 != 4 and i % 2 == 0,
         })
     # groups with a single matching file among very many empty ones, many repetitions with many threads
     nrare = 140 if tier == "quick" else 600
@@ -303,11 +307,11 @@ def execute_group(scn, rg, only=None, repeat=1):
                 res["blocks"].append(b"")        # an empty file has an empty block in the modes of the rare groups
                 continue
             rc, out, err = run_rg(rg, ["-j1", "-g", "/" + rel] + args, root)
-            if rc not in (0, 1):
+            if rc not in ((0, 1, 2) if scn.get("selfloop") else (0, 1)):
                 raise vlib.ToolError("single-file reference run failed rc=%d: %s" % (rc, err[-300:]))
             res["blocks"].append(out)
         res["ref"] = run_rg(rg, ["-j1"] + args, root)[:2]
-        if res["ref"][0] not in (0, 1):
+        if res["ref"][0] not in ((0, 1, 2) if scn.get("selfloop") else (0, 1)):
             raise vlib.ToolError("the -j1 reference run of group %s failed rc=%d" % (scn["gid"], res["ref"][0]))
         for _ in range(repeat):
             for n, cpus in zip(scn["threads"], scn["cpus"]):
